@@ -430,12 +430,15 @@ func init() {
 		{ // how the token variants were spread over the value kinds
 			kinds, pairs := map[string]bool{}, 0
 			for k := range cover {
+				if strings.HasPrefix(k, "variant:(suffix)/") {
+					continue
+				}
 				if strings.HasPrefix(k, "variant:") {
 					pairs++
 					kinds[strings.SplitN(k[8:], "/", 2)[0]] = true
 				}
 			}
-			c.Notes = append(c.Notes, fmt.Sprintf("taint variants: %d of %d (value kind x special-character set) combinations generated, %d value kinds x %d variants (all five, each single character, each pair, an attribute-injection payload)",
+			c.Notes = append(c.Notes, fmt.Sprintf("taint variants: %d of %d (value kind x special-character set) combinations generated, %d value kinds x %d variants (all five, each single character, each pair, an attribute-injection payload; the same with full-width / small-form compatibility characters; half of the values end in entity-looking text: &nbsp; &amp; &lt; &#60; &nbsp)",
 				pairs, len(kinds)*len(c18Variants), len(kinds), len(c18Variants)))
 			for _, ch := range []string{"<", ">", "\"", "'", "&"} {
 				for k := range kinds {
@@ -541,7 +544,11 @@ func c18InjectedAttrs(page, twin string) []string {
 // c18Detaint replaces the five special characters (they only occur inside taint tokens) by '-':
 // the twin document has the same shape, the same file keys and the same sort order.
 func c18Detaint(text string) string {
-	return strings.NewReplacer("<", "-", ">", "-", "\"", "-", "'", "-", "&", "-").Replace(text)
+	pairs := []string{"<", "-", ">", "-", "\"", "-", "'", "-", "&", "-"}
+	for _, ch := range c18CompatChars {
+		pairs = append(pairs, ch, "-")
+	}
+	return strings.NewReplacer(pairs...).Replace(text)
 }
 
 var c18KeyRe = regexp.MustCompile(`[^a-z_0-9-]+`)
